@@ -10,6 +10,7 @@ The trusted base is `pickle._Unpickler` itself; this file only
 Nothing named by a pickle is ever imported, resolved or called here.
 """
 import io
+import itertools
 import pickle
 from pickle import _Stop, _Unframer, _Unpickler
 
@@ -140,6 +141,8 @@ def _canon(v, ids, stack):
         return (type(v).__name__, v)
     if isinstance(v, bytearray):
         return ("bytearray", bytes(v))
+    if isinstance(v, memoryview):
+        return ("memoryview", bytes(v), v.readonly)
     return ("other", type(v).__name__, repr(v))
 
 
@@ -156,7 +159,10 @@ def canon_i(v):
 
 class RefVM(_Unpickler):
     def __init__(self, data, on_op=None):
-        super().__init__(io.BytesIO(data))
+        # out-of-band buffers: an unbounded supply of writable buffers, so that NEXT_BUFFER /
+        # READONLY_BUFFER programs have a reference behaviour (only used by generators that opt
+        # into those opcodes; without them the argument is inert)
+        super().__init__(io.BytesIO(data), buffers=(bytearray(b"buf%d" % i) for i in itertools.count()))
         self.log = Log()
         self.on_op = on_op
         self.nops = 0
